@@ -303,6 +303,28 @@ fn phase1(
                 }
             }
         }
+        if has(cfg, "C18") {
+            // the result of the in-place entry point must pass (or refuse to pass) exactly like the other one
+            match (n1.null_move(), n2.null_move()) {
+                (Some(a), Some(b2)) => {
+                    if a != b2 {
+                        rep.violation("C18", "null_move_differs_between_entry_points", json!({"fen": fen, "move": [f, t, p]}));
+                    }
+                }
+                (None, None) => {}
+                (a, _) => rep.violation("C18", "null_move_availability_differs_between_entry_points",
+                    json!({"fen": fen, "move": [f, t, p], "after_make_move_new": a.is_some()})),
+            }
+            if mv.as_array().unwrap().len() >= 8 {
+                let in_check = !set_of(&mv[6]).is_empty();
+                if n2.null_move().is_some() == in_check {
+                    rep.violation("C18", "null_move_refusal_wrong_after_make_move_into", json!({"fen": fen, "move": [f, t, p], "in_check": in_check}));
+                }
+                if n1.null_move().is_some() == in_check {
+                    rep.violation("C18", "null_move_refusal_wrong_on_successor", json!({"fen": fen, "move": [f, t, p], "in_check": in_check}));
+                }
+            }
+        }
         if has(cfg, "C05") {
             // every reached position is again a valid one: judged on the library's own successor
             if !n1.is_sane() {
@@ -1013,6 +1035,118 @@ fn siblings(sp: &Pos, b: &Board, fen: &str, rep: &mut Report) {
     }
 }
 
+/// C09: every single Zobrist component must separate positions.  Two men fixed (the kings), one man X on every
+/// other square, every kind and colour: all hashes must be pairwise distinct (their differences are exactly the
+/// piece keys); the same for the 16 castling-right combinations, both sides to move, and every en-passant file.
+fn key_table_probe(rep: &mut Report) {
+    use std::collections::HashMap;
+    let mut seen: HashMap<u64, String> = HashMap::new();
+    let mut note = |b: &Board, what: String, rep: &mut Report, seen: &mut HashMap<u64, String>| {
+        rep.count("key_probe_positions", 1);
+        if let Some(prev) = seen.get(&b.get_hash()) {
+            if *prev != what {
+                rep.violation("C09", "single_component_keys_collide", json!({"a": prev, "b": what, "hash": b.get_hash().to_string()}));
+            }
+        } else {
+            seen.insert(b.get_hash(), what);
+        }
+    };
+    for (wk, bk) in [(0usize, 63usize), (7, 56)].iter() {
+        seen.clear();
+        for l in b"PNBRQpnbrq".iter() {
+            for s in 0..64usize {
+                if s == *wk || s == *bk {
+                    continue;
+                }
+                for stm in [b'w', b'b'].iter() {
+                    let mut p = Pos { sq: [b'.'; 64], stm: *stm, cr: 0, ep: -1 };
+                    p.sq[*wk] = b'K';
+                    p.sq[*bk] = b'k';
+                    p.sq[s] = *l;
+                    if let Ok(b) = Board::try_from(&pos_to_builder(&p)) {
+                        note(&b, p.describe(), rep, &mut seen);
+                    }
+                }
+            }
+        }
+    }
+    // castling rights and side to move
+    seen.clear();
+    for cr in 0..16u8 {
+        for stm in [b'w', b'b'].iter() {
+            let mut p = Pos { sq: [b'.'; 64], stm: *stm, cr, ep: -1 };
+            p.sq[4] = b'K';
+            p.sq[0] = b'R';
+            p.sq[7] = b'R';
+            p.sq[60] = b'k';
+            p.sq[56] = b'r';
+            p.sq[63] = b'r';
+            if let Ok(b) = Board::try_from(&pos_to_builder(&p)) {
+                note(&b, p.describe(), rep, &mut seen);
+            }
+        }
+    }
+    // en-passant files, both colours: pusher on file f, capturers on both neighbours
+    for white_pushed in [true, false].iter() {
+        seen.clear();
+        for f in -1..8i8 {
+            let mut p = Pos { sq: [b'.'; 64], stm: if *white_pushed { b'b' } else { b'w' }, cr: 0, ep: -1 };
+            p.sq[4] = b'K';
+            p.sq[60] = b'k';
+            let (rank, me, them, eprank) = if *white_pushed { (3usize, b'P', b'p', 2i8) } else { (4usize, b'p', b'P', 5i8) };
+            for g in 0..8usize {
+                p.sq[rank * 8 + g] = if g % 2 == 0 { me } else { them };
+            }
+            // alternate so that every file has a pusher candidate with an enemy neighbour: use two layouts
+            for layout in 0..2 {
+                let mut q = p;
+                for g in 0..8usize {
+                    q.sq[rank * 8 + g] = if (g + layout) % 2 == 0 { me } else { them };
+                }
+                if f >= 0 {
+                    if q.sq[rank * 8 + f as usize] != me {
+                        continue;
+                    }
+                    q.ep = eprank * 8 + f;
+                }
+                if let Ok(b) = Board::try_from(&pos_to_builder(&q)) {
+                    note(&b, format!("layout {} {}", layout, q.describe()), rep, &mut seen);
+                }
+            }
+        }
+    }
+    // cross product: en-passant file x castling rights (x placement layout) on boards where every pusher has a taker
+    for white_pushed in [true, false].iter() {
+        seen.clear();
+        for layout in 0..2usize {
+            for cr in 0..16u8 {
+                for f in -1..8i8 {
+                    let mut q = Pos { sq: [b'.'; 64], stm: if *white_pushed { b'b' } else { b'w' }, cr, ep: -1 };
+                    q.sq[4] = b'K';
+                    q.sq[0] = b'R';
+                    q.sq[7] = b'R';
+                    q.sq[60] = b'k';
+                    q.sq[56] = b'r';
+                    q.sq[63] = b'r';
+                    let (rank, me, them, eprank) = if *white_pushed { (3usize, b'P', b'p', 2i8) } else { (4usize, b'p', b'P', 5i8) };
+                    for g in 0..8usize {
+                        q.sq[rank * 8 + g] = if (g + layout) % 2 == 0 { me } else { them };
+                    }
+                    if f >= 0 {
+                        if q.sq[rank * 8 + f as usize] != me {
+                            continue;
+                        }
+                        q.ep = eprank * 8 + f;
+                    }
+                    if let Ok(b) = Board::try_from(&pos_to_builder(&q)) {
+                        note(&b, q.describe(), rep, &mut seen);
+                    }
+                }
+            }
+        }
+    }
+}
+
 fn main() {
     let args: Vec<String> = std::env::args().collect();
     let mut cfg = Cfg { props: HashSet::new(), sweep: "sel".into(), seed: 1, threads: 16, out: "".into(), mapcap: 8_000_000 };
@@ -1051,11 +1185,20 @@ fn main() {
         i += 1;
     }
     std::panic::set_hook(Box::new(|_| {}));
+    let mut rep_init: Option<Report> = None;
     let dirty = Board::from_str("r3k2r/p1ppqpb1/bn2pnp1/3PN3/1p2P3/2N2Q1p/PPPBBPPP/R3K2R b KQkq - 0 1").unwrap();
+    if has(&cfg, "C09") {
+        let mut r0 = Report::new();
+        key_table_probe(&mut r0);
+        rep_init = Some(r0);
+    }
     let mut map: HashMap<[u8; 67], Board> = HashMap::new();
     let mut alts: HashMap<[u8; 67], Vec<Board>> = HashMap::new();
     let mut hmap: HashMap<u64, [u8; 67]> = HashMap::new();
     let mut rep = Report::new();
+    if let Some(r0) = rep_init.take() {
+        rep.merge(r0);
+    }
     let stdin = io::stdin();
     let mut batch: Vec<Item> = vec![];
     let mut idx: u64 = 0;
